@@ -310,7 +310,7 @@ func main() {
 	}
 	cfg := vhlib.ParseFlags()
 	sum := vhlib.NewSummary("codec: one case = one series (header = first timestamp, 1-80 points; timestamps in [1,2^31) with delta-of-delta at every bucket edge, values from a boundary pool, random bits, and XORs with chosen leading/trailing zero windows incl. the full (lz,tz) sweep); non-trivial = at least 2 points; " +
-		"tsid: one case = (metric name, tag list in insertion order); e2e: one case = one datapoint of a multi-series history through EncodeDatapoint, block/segment rotation, restart and a selector query; distinct by content")
+		"tsid: one case = (metric name, tag list in insertion order); e2e: one case = one datapoint of a multi-series history through EncodeDatapoint, block/segment rotation, restart and a selector query; race: one case = one series of a multi-phase history at one stage (selector queries whose search requests are built, then a block / segment / segment+tags-tree / forced rotation and optionally the next phase of ingest, then executed; plus the same queries at rest); distinct by content")
 	r := vhlib.NewRng(cfg.Seed)
 	codecPart(cfg, sum, r.Fork())
 	tsidPart(cfg, sum, r.Fork())
